@@ -221,11 +221,11 @@ impl Check for C07 {
         vec!["E57Reader::header() is not among the read operations of the statement".into()]
     }
     fn budget(t: Tier) -> usize {
-        t.pick(10_000, 300_000)
+        t.pick(10_000, 1_500_000)
     }
     fn fixed(t: Tier) -> Vec<Case> {
         let mut out = Vec::new();
-        let files = t.pick(6, 60);
+        let files = t.pick(6, 120);
         for f in 0..files {
             let mut s = Src::from_seed(mix(0xC07, f as u64));
             let p = small_program(&mut s);
@@ -246,7 +246,7 @@ impl Check for C07 {
         out
     }
     fn describe_fixed(t: Tier) -> Option<String> {
-        Some(format!("all 8192 single-bit flips of every page of {} generated files (up to 8 pages each); backend digest over {} programs", t.pick(6, 60), t.pick(300, 5000)))
+        Some(format!("all 8192 single-bit flips of every page of {} generated files (up to 8 pages each); backend digest over {} programs", t.pick(6, 120), t.pick(300, 5000)))
     }
     fn gen(s: &mut Src, _t: Tier) -> Case {
         let program = small_program(s);
